@@ -273,26 +273,37 @@ void circuit_read_operations(Circuit &circuit, SOURCE read_char, READ_CONDITION 
         CircuitInstruction &new_op = ops.back();
 
         if (new_op.gate_type == GateType::REPEAT) {
-            if (new_op.targets.size() != 2) {
-                throw std::invalid_argument("Invalid instruction. Expected one repetition arg like `REPEAT 100 {`.");
-            }
-            uint32_t rep_count_low = new_op.targets[0].data;
-            uint32_t rep_count_high = new_op.targets[1].data;
-            uint32_t block_id = (uint32_t)circuit.blocks.size();
-            if (rep_count_low == 0 && rep_count_high == 0) {
-                throw std::invalid_argument("Repeating 0 times is not supported.");
-            }
+            size_t num_blocks_before = circuit.blocks.size();
+            try {
+                if (new_op.targets.size() != 2) {
+                    throw std::invalid_argument(
+                        "Invalid instruction. Expected one repetition arg like `REPEAT 100 {`.");
+                }
+                uint32_t rep_count_low = new_op.targets[0].data;
+                uint32_t rep_count_high = new_op.targets[1].data;
+                uint32_t block_id = (uint32_t)circuit.blocks.size();
+                if (rep_count_low == 0 && rep_count_high == 0) {
+                    throw std::invalid_argument("Repeating 0 times is not supported.");
+                }
 
-            // Read block.
-            circuit.blocks.emplace_back();
-            circuit_read_operations(circuit.blocks.back(), read_char, READ_CONDITION::READ_UNTIL_END_OF_BLOCK);
+                // Read block.
+                circuit.blocks.emplace_back();
+                circuit_read_operations(circuit.blocks.back(), read_char, READ_CONDITION::READ_UNTIL_END_OF_BLOCK);
 
-            // Rewrite target data to reference the parsed block.
-            circuit.target_buf.ensure_available(3);
-            circuit.target_buf.append_tail(GateTarget{block_id});
-            circuit.target_buf.append_tail(GateTarget{rep_count_low});
-            circuit.target_buf.append_tail(GateTarget{rep_count_high});
-            new_op.targets = circuit.target_buf.commit_tail();
+                // Rewrite target data to reference the parsed block.
+                circuit.target_buf.ensure_available(3);
+                circuit.target_buf.append_tail(GateTarget{block_id});
+                circuit.target_buf.append_tail(GateTarget{rep_count_low});
+                circuit.target_buf.append_tail(GateTarget{rep_count_high});
+                new_op.targets = circuit.target_buf.commit_tail();
+            } catch (const std::invalid_argument &) {
+                // Don't leave a REPEAT instruction that has no block behind in the circuit.
+                while (circuit.blocks.size() > num_blocks_before) {
+                    circuit.blocks.pop_back();
+                }
+                ops.pop_back();
+                throw;
+            }
         }
 
         // Fuse operations.
